@@ -195,6 +195,27 @@ def _p_select_chain_members():
 register('C01', Probe('select listing a defined type together with the types it renames', _p_select_chain_members))
 
 
+def _p_complex_two_roots():
+    # externally mapped instances with a part that has a supertype under each of two roots, one of which lists it in a ONEOF
+    # (the unchanged tree reads these graphs correctly - see C08's fixed two-root family; other multi-supertype sets are masked)
+    E = lambda n, sup=(), sx=None, k='INT': M.Entity(n, supers=list(sup), sexpr=sx, attrs=[M.Attr('a_' + n, M.INT() if k == 'INT' else M.STR())])
+    s = M.Schema('pr_cx2r', [], [E('tool', sx=('oneof', [('leaf', 'drill'), ('leaf', 'saw')])), E('product', sx=('andor', ('leaf', 'drill'), ('leaf', 'boxed')), k='STR'), E('drill', ['tool', 'product']),
+                                 E('saw', ['tool']), E('bit', ['drill']), E('boxed', ['product']),
+                                 M.Entity('holder', attrs=[M.Attr('t', M.ENT('tool')), M.Attr('p', M.ENT('product'), True), M.Attr('ts', M.AGG('LIST', M.ENT('tool'), 0, None))])])
+    insts = [Inst(6, [('DRILL', [('int', 1)]), ('PRODUCT', [('str', 'p6')]), ('TOOL', [('int', 2)])], True),
+             Inst(7, [('BIT', [('int', 3)]), ('DRILL', [('int', 4)]), ('PRODUCT', [('str', 'p7')]), ('TOOL', [('int', 5)])], True),
+             Inst(8, [('HOLDER', [('ref', 6), ('ref', 7), ('agg', [('ref', 7), ('ref', 6)])])]),
+             Inst(9, [('SAW', [('int', 6), ('int', 7)])]),
+             Inst(11, [('BOXED', [('int', 8)]), ('DRILL', [('int', 9)]), ('PRODUCT', [('str', 'p11')]), ('TOOL', [('int', 10)])], True),
+             Inst(12, [('BIT', [('int', 11)]), ('BOXED', [('int', 12)]), ('DRILL', [('int', 13)]), ('PRODUCT', [('str', 'p12')]), ('TOOL', [('int', 14)])], True),
+             Inst(13, [('HOLDER', [('ref', 11), ('ref', 12), ('agg', [('ref', 12)])])]),
+             Inst(10, [('HOLDER', [('ref', 9), ('null',), ('agg', [('ref', 9), ('ref', 6)])])])]
+    return s, insts
+
+
+register('C01', Probe('externally mapped instances whose part has a supertype under each of two roots', _p_complex_two_roots))
+
+
 def _p_select_secondary_super():
     s = M.Schema('pr_sel2nd', [M.TypeDef('label', 'simple', base=M.STR()), M.TypeDef('sel1', 'select', members=['label', 'q'])],
                  [M.Entity('p', attrs=[M.Attr('x', M.INT())]),
